@@ -673,6 +673,17 @@ def run(ctx):
         ctx.count()
         ctx.mark(('pong-then-foreign', bufsize), True)
         ctx.hist('directed:pong-then-foreign')
+    # every verbosity with latency control on and off, over budget: what the rotations bring together only by the luck of
+    # their phases is here by construction (a debug line that evaluates check_fullness() pauses a tunnel that must not pause)
+    for verbose in (0, 1, 2, 3, 13):
+        for lat in (False, True):
+            o = tg.Opts(nflows=1, steps=40, latency=lat, bufsize=2048, both=True, verbose=verbose, platform=0, clock=0)
+            ins, outs, nontrivial = scenario(ctx, rng, o)
+            all_in.append(ins)
+            all_out.append(outs)
+            ctx.count()
+            ctx.mark(('verbosity-x-latency', verbose, lat), True)
+            ctx.hist('directed:verbosity-x-latency')
     n = ctx.scale(36, 1200)
     for k in range(n):
         o = tg.Opts(nflows=rng.choice([1, 2, 3, 4]), steps=rng.randrange(30, 120), latency=(k % 4 != 0),
